@@ -29,6 +29,7 @@ import Verif.Gen.AppendFacts
 import Verif.Lemmas.LevelStore
 import Verif.Lemmas.MptRound
 import Verif.Lemmas.MergeRound
+import Verif.Lemmas.TrieRun
 import Verif.Lemmas.OrderChanges
 namespace Verif.Props.C03
 open Verif.Mpt Verif.MptStore Verif.MptStore.Collector
@@ -225,6 +226,31 @@ theorem merge_resolves_one_child (H : Bytes → Bytes) (below : Bytes → Option
     hfresh hcur h0 hup hne (by rw [hctree] at *; exact hd) (by rw [hctree]; exact hc)
     (by rw [hctree]; intro a b ha hb hk; rw [hU a b (hin a ha) (hin b hb) hk])
   simpa [mergeMPTChanges] using this
+
+/-- **Publication into the layered store — any run of a trie** (own operations and merges of children in any number and
+    order, children themselves with nested merged children: `TrieRun`): after the run the trie's tree resolves in its
+    layered store (own level, then `below`).  Since an accepted merge leaves the parent with exactly the store and
+    collector of `p.applyEvents (mergeEvents (orderChanges changes) deletes)` (`merge_fresh`), this is `MergeResolves` for
+    every parent state reachable by such runs.  Discipline proved; assumed: canonical resolvable start tree, key
+    injectivity on the run's references, `orderChanges` never stuck (part of `TrieRun`). -/
+theorem run_resolves (H : Bytes → Bytes) (U : Ref → Prop) (below : Bytes → Option Bytes) (t0 t : Node) (p0 : Trie)
+    (v : Nat) (es : List Event)
+    (hfresh : p0.cc.changes = [] ∧ p0.cc.deletes = []) (hcur : p0.db.current = [])
+    (h0 : Resolves H below t0 []) (hw : WF t0) (hUt : ∀ r ∈ refs t0 [], U r)
+    (hrun : TrieRun H U v t0 es t) (hU : KeyInjOn H U) :
+    Resolves H (levelGet (p0.applyEvents H es) below) t [] := by
+  obtain ⟨hd, hc, _, hE, hUt'⟩ := trieRun_discipline H U hU hrun hw hUt (fun x => x ∈ (refs t0 []).map (Ref.key H))
+    (fun r hr => List.mem_map.mpr ⟨r, hr, rfl⟩)
+    (by intro x hx; obtain ⟨r, hr, hk⟩ := List.mem_map.mp hx; exact ⟨r, hUt r hr, hk⟩)
+  apply level_resolves_partial H below t0 t p0 es hfresh hcur h0 hd hc
+  intro a b ha hb hk
+  have hin : ∀ r, (r ∈ refs t0 [] ∨ r ∈ refs t [] ∨ r ∈ eventRefs es) → U r := by
+    intro r hr
+    rcases hr with hr | hr | hr
+    · exact hUt r hr
+    · exact hUt' r hr
+    · exact hE r hr
+  rw [hU a b (hin a ha) (hin b hb) hk]
 
 /-- non-vacuity of `merge_resolves_one_child` (and of `merge_resolves_partial`, `view_resolves` through it): the parent
     did nothing itself, one child inserted a key; after the merge the parent reads the leaf from its own level -/
